@@ -5,7 +5,7 @@ VARIABLES l, bad
 tvars == <<fvars, l, bad>>
 SetOf(q) == {q[i] : i \in DOMAIN q}
 
-Reset(r) == /\ cfg' = [format |-> r.format, level |-> r.level, se |-> SetOf(r.se), writer |-> r.tree]
+Reset(r) == /\ cfg' = [format |-> r.format, level |-> r.level, se |-> SetOf(r.se), writer |-> r.tree, global |-> r.global]
             /\ n' = 0 /\ spar' = [s \in SpanIds |-> 0] /\ ent' = [t \in Threads |-> << >>]
 \* a burst: k threads emit at once; every write carries exactly one event, each event once per selected sink
 BurstOk(r) ==
@@ -15,7 +15,7 @@ BurstOk(r) ==
   /\ \A s \in sinks : \A tk \in SetOf(r.expect) : Cardinality({i \in DOMAIN r.writes : r.writes[i].sink = s /\ r.writes[i].toks = <<tk>>}) = 1
   /\ Len(r.writes) = Cardinality(sinks) * Len(r.expect)
   /\ r.nometa = 0
-TraceInit == cfg = [format |-> "full", level |-> TRUE, se |-> {}, writer |-> [k |-> "sink", id |-> 1]] /\ n = 0
+TraceInit == cfg = [format |-> "full", level |-> TRUE, se |-> {}, writer |-> [k |-> "sink", id |-> 1], global |-> FALSE] /\ n = 0
              /\ spar = [s \in SpanIds |-> 0] /\ ent = [t \in Threads |-> << >>] /\ l = 0 /\ bad = << >>
 TraceNext ==
   /\ l < Len(Rec)
